@@ -35,7 +35,7 @@
                      [r'(?s)this\.get_kind_for_word\(\s*w\.as_str\(\),\s*&token_range,\s*&mut saw_command_token,\s*\)', r'__o.kind(&token_range, &mut saw_command_token)', 1],
                      [r'this\.append_span\(', r't_append_span(this, ', 2],
                      [r'this\.skip_ahead\(', r't_skip_ahead(this, ', 1],
-                     [r'(?s)this\.highlight_word_piece\(\s*word_piece,\s*default_text_kind,\s*token_range\.start,\s*\)', r't_word_piece(this, word_piece, default_text_kind, token_range.start, __o)', 1]]},
+                     [r'(?s)this\.highlight_word_piece\(\s*word_piece,\s*default_text_kind,\s*token_range\.start,\s*\)', r'__o.piece_contract(this, word_piece, default_text_kind, token_range.start)', 1]]},
 }
 @*/
 use super::{HighlightKind, HighlightSpan};
@@ -138,6 +138,14 @@ impl HOracle {
         t_skip_ahead(hl, global_offset + sp.start_index);
         t_append_span(hl, HighlightKind::Quoted, (global_offset + sp.start_index)..(global_offset + sp.end_index));
     }
+    /// the contract of highlight_word_piece established by vk_c19_word_piece_step (used by the whole-program harnesses instead of inlining
+    /// the 11-arm transplant at every loop position): from a state that has not passed the piece's start, the gap before the piece and
+    /// the piece itself are covered and the cursor ends at the piece's end
+    fn piece_contract(&mut self, hl: &mut Hl, wp: WordPieceWithSource, kind: HighlightKind, global_offset: usize) {
+        if hl.current_byte_index > global_offset + wp.start_index { self.nested_ok = false; }
+        t_skip_ahead(hl, global_offset + wp.start_index);
+        t_append_span(hl, kind, (global_offset + wp.start_index)..(global_offset + wp.end_index));
+    }
     /// induction hypothesis for a nested program (command substitution body of `len` bytes starting at `offset`)
     fn nested_program(&mut self, hl: &mut Hl, cmd: &Txt, offset: usize) {
         if hl.current_byte_index > offset { self.nested_ok = false; }
@@ -224,18 +232,19 @@ fn program_harness(max_tok: usize, max_pieces: usize) {
     kani::cover!(!o.tok_err && o.ntok == max_tok && !o.t[0].0 && s0 > 0 && e0 < 5, "word_with_gaps_around_it");
     kani::cover!(o.tok_err, "tokenizer_error");
     kani::cover!(!o.tok_err && o.ntok == 0, "blank_or_comment_line");
+    assert!(o.nested_ok, "C19.program.pieces_visited_in_order");
     assert!(hl.spans.tiled, "C19.program.spans_contiguous_ordered_non_empty");
     assert!(hl.spans.end == 5 && hl.current_byte_index == 5, "C19.program.spans_cover_the_whole_line");
     assert!(hl.spans.count >= 1, "C19.program.at_least_one_span");
 }
 fn any_below3() -> u8 { let v: u8 = kani::any(); kani::assume(v < 3); v }
 
-//@proof {'props': ['C19'], 'tier': 'thorough', 'timeout': 3000, 'uses': ['append_span', 'skip_ahead', 'set_missing', 'word_piece', 'program'], 'bounds': 'a 5-byte ASCII line; tokenizer error, or 0..1 token (operator / word) at a symbolic in-range character range; the word: parse error or 0..2 text pieces at symbolic in-order offsets inside the word (the other piece kinds: vk_c19_word_piece_step)', 'desc': 'highlight_program on a whole line with one token: whatever the token and piece layout (within the offset contract), the spans are ordered, contiguous, non-empty and cover exactly [0, len) - rendering the spans reproduces the line; a tokenizer error yields one span over the whole line'}
+//@proof {'props': ['C19'], 'tier': 'quick', 'timeout': 900, 'uses': ['append_span', 'skip_ahead', 'set_missing', 'program'], 'bounds': 'a 5-byte ASCII line; tokenizer error, or 0..1 token (operator / word) at a symbolic in-range character range; the word: parse error or 0..2 text pieces at symbolic in-order offsets inside the word (the other piece kinds: vk_c19_word_piece_step)', 'desc': 'highlight_program on a whole line with one token: whatever the token and piece layout (within the offset contract), the spans are ordered, contiguous, non-empty and cover exactly [0, len) - rendering the spans reproduces the line; a tokenizer error yields one span over the whole line'}
 #[kani::proof]
 #[kani::unwind(8)]
 fn vk_c19_program_one_token() { program_harness(1, 2); }
 
-//@proof {'props': ['C19'], 'tier': 'thorough', 'timeout': 3000, 'uses': ['append_span', 'skip_ahead', 'set_missing', 'word_piece', 'program'], 'bounds': 'a 5-byte ASCII line; 0..2 tokens at symbolic in-order ranges; each word: parse error or 0..1 text piece', 'desc': 'highlight_program with two tokens: gaps before, between and after the tokens are filled; coverage of [0, len) as above'}
+//@proof {'props': ['C19'], 'tier': 'quick', 'timeout': 900, 'uses': ['append_span', 'skip_ahead', 'set_missing', 'program'], 'bounds': 'a 5-byte ASCII line; 0..2 tokens at symbolic in-order ranges; each word: parse error or 0..1 text piece', 'desc': 'highlight_program with two tokens: gaps before, between and after the tokens are filled; coverage of [0, len) as above'}
 #[kani::proof]
 #[kani::unwind(8)]
 fn vk_c19_program_two_tokens() { program_harness(2, 1); }
@@ -264,7 +273,7 @@ fn vk_c19_token_step() {
     if is_op && s < e { assert!(hl.current_byte_index == g + e, "C19.token.operator_span_ends_at_token_end"); }
 }
 
-//@proof {'props': ['C19'], 'tier': 'quick', 'timeout': 900, 'uses': ['append_span', 'skip_ahead', 'program'], 'bounds': 'a 5-byte ASCII line; the tokenizer fails, or finds no token (blank / comment line)', 'desc': 'the frame of highlight_program: with no tokens the whole line is one gap span; with a tokenizer error it is one default span; in both cases [0, len) is covered exactly (the token loop itself: vk_c19_token_step; whole-program runs with tokens: thorough tier)'}
+//@proof {'props': ['C19'], 'tier': 'quick', 'timeout': 900, 'uses': ['append_span', 'skip_ahead', 'program'], 'bounds': 'a 5-byte ASCII line; the tokenizer fails, or finds no token (blank / comment line)', 'desc': 'the frame of highlight_program: with no tokens the whole line is one gap span; with a tokenizer error it is one default span; in both cases [0, len) is covered exactly (the token loop itself: vk_c19_token_step; whole-line runs with tokens: vk_c19_program_one_token / two_tokens)'}
 #[kani::proof]
 #[kani::unwind(8)]
 fn vk_c19_program_frame() {
